@@ -94,7 +94,7 @@ impl Property for C13 {
         40_000
     }
     fn random_cases(&self, tier: Tier) -> u64 {
-        tier.pick(40_000, 600_000)
+        tier.pick(600_000, 3_000_000)
     }
     fn run(&self, t: &mut Tape, ctx: &mut CaseCtx) -> Verdict {
         if t.chance(2, 3) {
